@@ -64,6 +64,12 @@ impl CaseReport {
     pub fn ok(&self) -> bool {
         self.fails.is_empty()
     }
+    /// The case could not be decided (e.g. a wait for quiescence timed out). Never a violation;
+    /// counted, and the run exits 2 if more than 5 % of all cases end up here.
+    pub fn inconclusive(&mut self, why: &str) {
+        self.count("inconclusive", 1);
+        self.class(format!("inconclusive:{why}"));
+    }
 }
 
 #[derive(Debug, Clone)]
@@ -751,6 +757,18 @@ impl Check {
             wall
         );
         scratch::cleanup_root();
+        let inconclusive: u64 = self
+            .groups
+            .iter()
+            .map(|(_, st)| st.counters.get("inconclusive").copied().unwrap_or(0))
+            .sum();
+        if self.violations.is_empty() && evaluations > 0 && inconclusive * 20 > evaluations {
+            println!(
+                "INCONCLUSIVE property={}: {} of {} cases could not be decided (timeouts)",
+                self.prop, inconclusive, evaluations
+            );
+            std::process::exit(2);
+        }
         std::process::exit(if self.violations.is_empty() { 0 } else { 1 });
     }
 }
